@@ -98,6 +98,7 @@ Inductive ev :=
 | ENew (t : Z) | ERunBegin (t : Z) (idle : bool) | ERunRet (b : bool)
 | EDropBegin | EDropFields | EDropEnd | EEpilogue
 | EClo (uid cid : N)                 (* closure instance created *)
+| ETarget (uid a : N) (prep : bool)  (* ... it is a call to actor a (Ready method / Prep method) *)
 | ESub (q : qk) (uid : N)            (* ... and handed to a queue / timer *)
 | ERun (uid : N) (now : Z)           (* plain closure body starts *)
 | EMeth (a uid : N) (now : Z)        (* Ready method starts *)
@@ -110,10 +111,14 @@ Inductive ev :=
 | EReq (a : N) (c : cause)           (* stop/fail/kill request issued (echo) *)
 | ENotify (a : N) (c : option cause)
 | EValDrop (a : N)
-| ERetNew (r : N) | ERet (r : N) (m : option N)
+| ERetNew (r : N) | ERetTo (r uid : N) (some : bool) | ERetSent (r v : N) | ERet (r : N) (m : option N)
 | EFwdNew (f : N) | EFwd (f v : N) | EFwdFree (f : N)
 | ETokNew (t : N) | ETokDrop (t : N)
 | ELog (id level parent : Z) (marker : N)
+| EIsZombie (a : N) (b : bool)
+| ESlabAdd (p a : N) | ESlabLen (p : N) (n : Z)
+| ESetLogger (lvls : list Z) | ESetFilter (lvls : list Z)
+| ELogReq (id lvl : Z) | ELogCheck (lvl : Z) (b : bool)
 | EBool (tag : N) (b : bool)
 | ENum (tag : N) (n : Z)
 | ELeak (kind id : N)
@@ -127,6 +132,7 @@ Definition TAG_SLABLEN : N := 7. Definition TAG_NOW : N := 8.   Definition TAG_S
 (* codes of EModel *)
 Definition M_FREE_ACTOR : N := 1. Definition M_AMBIG : N := 2. Definition M_UAF : N := 3.
 Definition M_LIMBO : N := 4.      Definition M_PREPHELD : N := 5. Definition M_DRAINLEFT : N := 6.
+Definition M_CHILDCYCLE : N := 7.
 (* leak kinds *)
 Definition LK_CLO : N := 0. Definition LK_VAL : N := 1. Definition LK_RET : N := 2.
 Definition LK_NOTIFY : N := 3. Definition LK_TOK : N := 4. Definition LK_FWD : N := 5.
